@@ -138,3 +138,38 @@ def load_reviewed(name):
     p = os.path.join(VERIF, "props", "reviewed", name)
     with open(p) as fh:
         return json.load(fh)
+
+
+def moved_sites(sites, reviewed, g):
+    """Extract-function and inline-function refactors move a panicking site into a helper or back into its caller without
+    adding one.  Returns {key: (n, origin key)} for the sites of an unreviewed or over-count key that are matched by the
+    same (kind, detail) *missing* from a reviewed function that calls, or is called by, the function the site now lives in
+    (or that no longer exists): such a site was moved, not added, and inherits the review of its origin.  FINDING entries
+    are never matched (a recorded defect must stay where it was recorded)."""
+    cur = {k: len(v) for k, v in sites.items()}
+    spare = {}
+    for k, rv in reviewed.items():
+        if str(rv.get("reason", "")).startswith("FINDING"):
+            continue
+        n = rv.get("count", 1) - cur.get(k, 0)
+        if n > 0:
+            spare[k] = n
+    out = {}
+    for k, n_now in sorted(cur.items()):
+        rv = reviewed.get(k)
+        if rv is not None and str(rv.get("reason", "")).startswith("FINDING"):
+            continue
+        extra = n_now - (rv.get("count", 1) if rv is not None else 0)
+        if extra <= 0:
+            continue
+        fn, kind, detail = k.split("|", 2)
+        for sk in sorted(spare):
+            sfn, skind, sdetail = sk.split("|", 2)
+            if (skind, sdetail) != (kind, detail) or spare[sk] < extra or sfn == fn:
+                continue
+            related = fn in g.get(sfn, ()) or sfn in g.get(fn, ()) or sfn not in g
+            if related:
+                spare[sk] -= extra
+                out[k] = (extra, sk)
+                break
+    return out
